@@ -132,9 +132,25 @@ class RunResult:
         self.distinct_sig_sum = 0
         self.nontrivial_sig_sum = 0
         self.trace_sum = 0
+        self.huge_skipped = False
         self.violation = None  # dict: kind: 'report'|'trap'|'hang', ...
         self.wall = 0.0
         self.worker_wall = 0.0
+
+
+# the one multi-GiB episode of a C07/C08/C14 run (4 GiB mappings of zero
+# pages): family 99. On the unchanged tree it takes 5-20 s.
+HUGE_PROFILES = ("C07", "C08", "C14")
+HUGE_FAMILY = 99
+HUGE_BOUND_S = 240
+
+
+def progress_family(out):
+    try:
+        with open(out + ".progress", "rb") as f:
+            return int.from_bytes(f.read(8), "little")
+    except Exception:
+        return None
 
 
 def run_workers(exe, prop, seed, total, chunk, want_hashes=False, timeout_per_chunk=600, first=0, sig_cap=300000,
@@ -146,17 +162,18 @@ def run_workers(exe, prop, seed, total, chunk, want_hashes=False, timeout_per_ch
     i = first
     while i < first + total:
         j = min(first + total, i + chunk)
-        pending.append((i, j))
+        pending.append((i, j, []))
         i = j
     pending.reverse()
     running = {}
     res = RunResult()
+    viol_chunk_args = []
     t0 = time.time()
     stop = False
     outs = []
     while (pending and not stop) or running:
         while pending and not stop and len(running) < workers:
-            lo, hi = pending.pop()
+            lo, hi, chunk_args = pending.pop()
             out = os.path.join(SCRATCH, "%s-%d.json" % (tag, lo))
             cmd = [exe, "run", "--prop", prop, "--seed", str(seed), "--from", str(lo), "--to", str(hi), "--out", out,
                    "--sig-cap", str(sig_cap)]
@@ -164,27 +181,42 @@ def run_workers(exe, prop, seed, total, chunk, want_hashes=False, timeout_per_ch
                 cmd.append("--hashes")
             if extra_args:
                 cmd += list(extra_args)
+            cmd += chunk_args
             if wrapper:
                 cmd = wrapper(cmd)
             p = subprocess.Popen(cmd, stdout=subprocess.DEVNULL, stderr=subprocess.PIPE, env=env or ENV_BASE)
-            running[p.pid] = (p, lo, hi, out, time.time())
-            outs.append(out)
+            running[p.pid] = (p, lo, hi, out, time.time(), chunk_args)
+            if out not in outs:
+                outs.append(out)
         time.sleep(0.005)
         for pid in list(running):
-            p, lo, hi, out, started = running[pid]
+            p, lo, hi, out, started, chunk_args = running[pid]
             rc = p.poll()
             if rc is None:
-                if time.time() - started > timeout_per_chunk:
+                elapsed = time.time() - started
+                in_huge = (prop in HUGE_PROFILES and lo <= HUGE_FAMILY < hi and "--no-huge" not in chunk_args
+                           and "--no-huge" not in (extra_args or []) and elapsed > min(HUGE_BOUND_S, timeout_per_chunk / 2)
+                           and progress_family(out) == HUGE_FAMILY)
+                if in_huge:
+                    # the multi-GiB episode is slow on this tree. Slow is not
+                    # wrong (a count that became a loop over next() is still a
+                    # count): the episode is not judged, the range runs again
+                    # without it, and the evidence says so
                     p.kill()
                     p.wait()
-                    fam = None
-                    try:
-                        with open(out + ".progress", "rb") as f:
-                            fam = int.from_bytes(f.read(8), "little")
-                    except Exception:
-                        pass
+                    del running[pid]
+                    pending.append((lo, hi, ["--no-huge"]))
+                    res.huge_skipped = True
+                    log("[%s] the multi-GiB episode (family %d) did not finish in %ds: skipped, not judged" %
+                        (prop, HUGE_FAMILY, min(HUGE_BOUND_S, timeout_per_chunk / 2)))
+                    continue
+                if elapsed > timeout_per_chunk:
+                    p.kill()
+                    p.wait()
+                    fam = progress_family(out)
                     if res.violation is None:
                         res.violation = {"how": "hang", "family": fam, "lo": lo, "hi": hi}
+                        viol_chunk_args = chunk_args
                     stop = True
                     del running[pid]
                 continue
@@ -218,6 +250,7 @@ def run_workers(exe, prop, seed, total, chunk, want_hashes=False, timeout_per_ch
                     if res.violation is None or v["index"] < res.violation.get("family", 1 << 62):
                         res.violation = {"how": "report", "family": v["index"], "violations": v["violations"],
                                          "replay": v["family"], "lo": lo}
+                        viol_chunk_args = chunk_args
                     stop = True
             elif rc == 77:
                 trap = ""
@@ -231,6 +264,7 @@ def run_workers(exe, prop, seed, total, chunk, want_hashes=False, timeout_per_ch
                 info = parse_trap(trap)
                 if res.violation is None or info.get("family", 1 << 62) < res.violation.get("family", 1 << 62):
                     res.violation = dict(info, how="trap", line=trap, lo=lo)
+                    viol_chunk_args = chunk_args
                 stop = True
             else:
                 raise HarnessError("worker %d..%d exited with status %s\n%s" % (lo, hi, rc, err[-4000:]))
@@ -239,7 +273,7 @@ def run_workers(exe, prop, seed, total, chunk, want_hashes=False, timeout_per_ch
     res.wall = time.time() - t0
     res.out_files = outs
     if res.violation is not None:
-        res.violation["gen_args"] = list(extra_args or [])
+        res.violation["gen_args"] = list(extra_args or []) + list(viol_chunk_args)
     return res
 
 
